@@ -463,8 +463,8 @@ class StretchyTreeMatcher:
         if match[_VAR] and meta_matched:  # variable
             # A parameter (or attribute) placeholder is also tried against the other children of the
             # student's node, e.g. a default value: only a node that has that field can be its partner
-            if type(std_node.astNode).__name__ == "Name" or (id_val in ["attr", "arg"] and
-                                                             hasattr(std_node.astNode, id_val)):
+            if hasattr(std_node.astNode, id_val) and (type(std_node.astNode).__name__ == "Name" or
+                                                      id_val in ["attr", "arg"]):
                 if id_val in ["attr", "arg"]:
                     std_node.astNode._id = std_node.astNode.__getattribute__(id_val)
                 if std_node.field == "func" and ins_node.field != _NONE_FIELD:
